@@ -116,9 +116,32 @@ func realHTC(oneway bool, limit uint, method string, status int, body []byte) ht
 	srv.mu.Lock()
 	srv.status, srv.body = status, body
 	srv.mu.Unlock()
+	_, dec, isB64 := decodedArg(body)
+	acceptable := status >= 200 && status < 300 && isB64 && len(dec) > 4
+	r := htcCallAndReport(c, oneway, method, 10*time.Second, acceptable)
+	if strings.HasPrefix(r.out, "panic") || r.out == "blocked" {
+		return r
+	}
+	srv.mu.Lock()
+	gotLimit := srv.limit
+	srv.mu.Unlock()
+	if want := ""; true {
+		if limit > 0 {
+			want = strconv.FormatUint(uint64(limit), 10)
+		}
+		if gotLimit != want {
+			r.viol = append(r.viol, fmt.Sprintf("the request announced the response limit %q, the transport was built with %d", gotLimit, limit))
+		}
+	}
+	return r
+}
+
+// htcCallAndReport makes one call on the client (recover + watchdog) and reports what came of it.
+// acceptable = the response is one from which a reply may be read (2xx, base64, longer than its prefix).
+func htcCallAndReport(c *htcClient, oneway bool, method string, timeout time.Duration, acceptable bool) htcRun {
 	*c.st = spyState{}
 	fctx := frugal.NewFContext("cid")
-	fctx.SetTimeout(10 * time.Second)
+	fctx.SetTimeout(timeout)
 	opidBefore, _ := fctx.RequestHeader("_opid")
 	var r htcRun
 	var err error
@@ -141,19 +164,6 @@ func realHTC(oneway bool, limit uint, method string, status int, body []byte) ht
 		}
 		return r
 	}
-	srv.mu.Lock()
-	gotLimit := srv.limit
-	srv.mu.Unlock()
-	if want := ""; true {
-		if limit > 0 {
-			want = strconv.FormatUint(uint64(limit), 10)
-		}
-		if gotLimit != want {
-			r.viol = append(r.viol, fmt.Sprintf("the request announced the response limit %q, the transport was built with %d", gotLimit, limit))
-		}
-	}
-	_, dec, isB64 := decodedArg(body)
-	acceptable := status >= 200 && status < 300 && isB64 && len(dec) > 4
 	if oneway {
 		if err == nil {
 			r.out = "ok"
